@@ -1,3 +1,4 @@
+import Noodles.Props.C08Fqz
 import Noodles.Props.C08Tok
 import Noodles.Props.C08Aac
 import Noodles.Cram.Num
